@@ -99,6 +99,7 @@ fn mt_ops(kinds: &'static [Kind], sq_sizes: &[u32], faults: bool) {
     let sq = tape::pick(site::GEOM, sq_sizes);
     let cq = sq * tape::pick(site::GEOM, &[4u32, 2, 8]);
     let sqpoll = tape::chance(site::GEOM, 1, 5);
+    let single_issuer = !sqpoll && tape::chance(site::GEOM, 1, 4);
     let nthreads = 2 + tape::choose(site::GEOM, 3) as usize;
     let mut kcfg = if faults { crate::engine::draw_kcfg(true) } else { KCfg::default() };
     kcfg.p_intr = 0;
@@ -109,8 +110,8 @@ fn mt_ops(kinds: &'static [Kind], sq_sizes: &[u32], faults: bool) {
     kcfg.p_complete_in_wait = 60;
     kcfg.sqpoll_sleepy = tape::chance(site::CFG, 1, 2);
     kernel::with(|k| k.cfg = kcfg);
-    trace(&[tag::CFG, sq, cq, u32::from(sqpoll), nthreads as u32]);
-    ev!("h mt config sq={sq} cq={cq} sqpoll={sqpoll} threads={nthreads}");
+    trace(&[tag::CFG, sq, cq, u32::from(sqpoll) + 2 * u32::from(single_issuer), nthreads as u32]);
+    ev!("h mt config sq={sq} cq={cq} sqpoll={sqpoll} single_issuer={single_issuer} threads={nthreads}");
 
     let ring = alloc::a10(|| {
         let mut c = a10::Ring::config()
@@ -118,6 +119,11 @@ fn mt_ops(kinds: &'static [Kind], sq_sizes: &[u32], faults: bool) {
             .with_completion_queue_size(cq);
         if sqpoll {
             c = c.with_kernel_thread();
+        }
+        if single_issuer {
+            // Other threads still share the submission queue; only the ring's
+            // thread enters the kernel.
+            c = c.single_issuer();
         }
         c.build()
     });
@@ -136,6 +142,23 @@ fn mt_ops(kinds: &'static [Kind], sq_sizes: &[u32], faults: bool) {
         signals: Vec::new(),
     };
     let fd = w.new_fd();
+    // A pool for the pool-backed kinds: its buffers are released by the task
+    // threads while the ring thread processes completions.
+    let pool = if kinds.iter().any(|k| k.needs_pool()) {
+        let size = tape::pick(site::GEOM, &[4u16, 2, 8]);
+        match alloc::a10(|| a10::io::ReadBufPool::new(w.sq.clone(), size, 16)) {
+            Ok(p) => {
+                w.pools.push(p);
+                Some(0)
+            }
+            Err(e) => {
+                report::harness_error(format!("pool: {e}"));
+                return;
+            }
+        }
+    } else {
+        None
+    };
 
     // Build the per-thread task lists.
     let mut next_id = 0u32;
@@ -148,7 +171,7 @@ fn mt_ops(kinds: &'static [Kind], sq_sizes: &[u32], faults: bool) {
             let id = next_id;
             next_id += 1;
             let f = if kind.needs_fd() { Some(fd) } else { None };
-            let made = ops::make(&mut w, kind, f, None, (id as u8).wrapping_mul(7).wrapping_add(3));
+            let made = ops::make(&mut w, kind, f, if kind.needs_pool() { pool } else { None }, (id as u8).wrapping_mul(7).wrapping_add(3));
             stats::inc(C::total_ops_created);
             list.push(MtTask {
                 id,
@@ -289,6 +312,7 @@ fn mt_ops(kinds: &'static [Kind], sq_sizes: &[u32], faults: bool) {
         bodies.push(Box::new(move || {
             let mut ring = ring;
             let ring_ref = &mut ring.0;
+            kernel::with(|k| k.rings[0].submitter = Some(sched::tid()));
             let mut rounds = 0;
             while done.load(Ordering::Acquire) < total && !gave_up.load(Ordering::Acquire) && rounds < 6000 {
                 stats::inc(C::total_ring_polls);
@@ -302,7 +326,10 @@ fn mt_ops(kinds: &'static [Kind], sq_sizes: &[u32], faults: bool) {
                 rounds += 1;
                 sched::step_boundary();
             }
-            kernel::with(|k| k.in_ring_drop = true);
+            kernel::with(|k| {
+                k.in_ring_drop = true;
+                k.ring_drop_seen = true;
+            });
             alloc::a10(|| drop(ring));
             kernel::with(|k| k.in_ring_drop = false);
         }));
@@ -356,13 +383,20 @@ fn mt_ops(kinds: &'static [Kind], sq_sizes: &[u32], faults: bool) {
         }
     }
     drop(res);
-    let World { sq, fds, .. } = w;
+    let World { sq, fds, pools, .. } = w;
     alloc::a10(|| {
+        drop(pools);
         drop(fds);
         drop(sq);
     });
     for v in alloc::take_violations() {
         violation(v.class, v.detail);
+    }
+    kernel::with(|k| k.check_lost_submissions(0));
+    // Everything is gone: nothing a10 allocated (operation states, buffers,
+    // queues) may be left, whichever thread dropped it.
+    if !report::has_violation() {
+        crate::engine::check_leaks();
     }
 }
 
@@ -380,6 +414,8 @@ const LIFE_KINDS: &[Kind] = &[
     Kind::Waitid,
     Kind::MultishotAccept,
     Kind::MultishotAccept,
+    Kind::ReadPool,
+    Kind::MultishotRecv,
 ];
 
 pub fn mt_sq() {
@@ -487,6 +523,8 @@ pub fn mt_wake() {
         bodies.push(Box::new(move || {
             let mut ring = ring;
             let r = &mut ring.0;
+            // The ring belongs to this thread (as if it had created it).
+            kernel::with(|k| k.rings[0].submitter = Some(sched::tid()));
             for t in timeouts {
                 let before = kernel::with(|k| (k.clock_ns, k.stuck_waits));
                 let start = stamp();
@@ -562,6 +600,12 @@ pub fn mt_wake() {
         for i in 0..n {
             let k = if tape::choose(site::OPKIND, 2) == 0 { Kind::Recv } else { Kind::Truncate };
             made.push(SendPtr(ops::make(&mut w, k, Some(fd), None, 100 + i as u8).task));
+        }
+        // In half of these runs what this thread starts never completes by
+        // itself (reads from an empty pipe): nothing but the wake-up message
+        // can end a blocked poll then.
+        if tape::chance(site::GEOM, 1, 2) {
+            kernel::with(|k| k.silent_by_op.push(2000));
         }
         let late = late.clone();
         let made = SendPtr(made);
@@ -817,11 +861,17 @@ pub fn mt_teardown() {
     kcfg.p_yield_act = tape::pick(site::CFG, &[100u32, 300, 30]);
     kcfg.enter_faults = false;
     kernel::with(|k| k.cfg = kcfg);
+    // A quarter of the runs: a single-issuer ring, which belongs to the thread
+    // that polls and drops it; the other threads only share its handles.
+    let single_issuer = tape::chance(site::GEOM, 1, 4);
     let ring = alloc::a10(|| {
-        a10::Ring::config()
+        let mut c = a10::Ring::config()
             .with_submission_queue_size(sq)
-            .with_completion_queue_size(cq)
-            .build()
+            .with_completion_queue_size(cq);
+        if single_issuer {
+            c = c.single_issuer();
+        }
+        c.build()
     });
     let Ok(ring) = ring else {
         report::harness_error("ring build failed".to_string());
@@ -843,7 +893,7 @@ pub fn mt_teardown() {
             w.pools.push(p);
         }
     }
-    trace(&[tag::CFG, sq, cq, w.pools.len() as u32]);
+    trace(&[tag::CFG, sq, cq, w.pools.len() as u32, u32::from(single_issuer)]);
     // Start operations (single-threaded phase), some get completions.
     const KINDS: &[Kind] = &[
         Kind::ReadVec,
@@ -901,6 +951,9 @@ pub fn mt_teardown() {
         bodies.push(Box::new(move || {
             let share = share;
             let mut ring = ring;
+            if ring.is_some() {
+                kernel::with(|k| k.rings[0].submitter = Some(sched::tid()));
+            }
             let mut drop_ring = |ring: &mut Option<SendPtr<a10::Ring>>| {
                 if let Some(r) = ring.take() {
                     let mut r = r;
@@ -909,7 +962,10 @@ pub fn mt_teardown() {
                         sched::step_boundary();
                     }
                     ev!("h t{}: drop ring", sched::tid());
-                    kernel::with(|k| k.in_ring_drop = true);
+                    kernel::with(|k| {
+                k.in_ring_drop = true;
+                k.ring_drop_seen = true;
+            });
                     alloc::a10(|| drop(r));
                     kernel::with(|k| k.in_ring_drop = false);
                 }
@@ -939,6 +995,7 @@ pub fn mt_teardown() {
     for v in alloc::take_violations() {
         violation(v.class, v.detail);
     }
+    kernel::with(|k| k.check_lost_submissions(0));
     // Ledger: mappings, ring descriptor, registrations (descriptors of AsyncFds
     // dropped after the ring are the recorded known finding).
     kernel::with(|k| k.refresh_ring_fds());
@@ -951,7 +1008,7 @@ pub fn mt_teardown() {
                 (r.sqes_mem.maps, r.sqes_mem.unmaps),
             ],
             r.fd_closed,
-            r.pbufs.len(),
+            r.pbufs.values().filter(|p| !p.refused).count(),
         )
     });
     if !report::has_violation() {
